@@ -1,13 +1,13 @@
 SPECIFICATION Spec
 CONSTANTS
-  D = 2
-  Budget = 12
+  D = 1
+  Budget = 8
   MaxIter = 4
   KTolAbs = 3
   KCap = 0
-  NTry = 3
+  NTry = 2
   NFinal = 2
-  NInitMax = 3
+  NInitMax = 2
   Noisy = FALSE
   AutoDetect = TRUE
   SkipPollAfterSearch = TRUE
@@ -20,9 +20,9 @@ CONSTANTS
   GridNum = 10
   MeshExpand = 0
   MeshIncr = 1
-  Sloppy = TRUE
+  Sloppy = FALSE
   NVals = 3
-  Faults = FALSE
+  Faults = TRUE
 INVARIANT BudgetRespected
 INVARIANT IterBounded
 INVARIANT CountHonest
